@@ -10,7 +10,7 @@ PROPS = "Props/C32.v"
 THEOREMS = ["C32_lines_spec", "C32_line_number_spec", "C32_location_in_range",
             "C32_inverse_location_roundtrip_refuted", "C32_inverse_location_roundtrip_partial",
             "C32_inverse_location_roundtrip_fails_outside_guard",
-            "C32_fixed_inverse_location_roundtrip", "C32_eof_is_boundary"]
+            "C32_fixed_inverse_location_roundtrip", "C32_eof_is_boundary", "C32_location_injective"]
 AXIOMS_OK = []
 TRUSTED = ["hand-written Gallina model of File.lines, location, inverseLocation, File.Location, File.InverseLocation "
            "(experimental/source/file.go) and of utf8.DecodeRune / the string range loop / utf16.RuneLen",
